@@ -24,6 +24,9 @@ import (
 	"k8s.io/apimachinery/pkg/types"
 	"k8s.io/apimachinery/pkg/util/intstr"
 	"k8s.io/apimachinery/pkg/util/sets"
+	appsapplyv1 "k8s.io/client-go/applyconfigurations/apps/v1"
+	coreapplyv1 "k8s.io/client-go/applyconfigurations/core/v1"
+	metaapplyv1 "k8s.io/client-go/applyconfigurations/meta/v1"
 	"k8s.io/client-go/kubernetes/scheme"
 
 	"verif/harness/simapi"
@@ -410,6 +413,39 @@ func runC19(ctx *Ctx) *Result {
 			}
 			again.ResourceVersion = pd.ResourceVersion
 		}
+		// Apply through the hijack client (conversion of the apply configuration, then the typed result)
+		{
+			part := int32(seed % 4)
+			rep := int32(seed % 5)
+			ac := appsapplyv1.StatefulSet("applied", "ns").
+				WithAnnotations(map[string]string{helper.DeleteSlotsAnn: "[1]"}).
+				WithSpec(appsapplyv1.StatefulSetSpec().
+					WithReplicas(rep).WithServiceName("svc").
+					WithPodManagementPolicy(appsv1.ParallelPodManagement).
+					WithRevisionHistoryLimit(int32(seed % 7)).
+					WithSelector(metaapplyv1.LabelSelector().WithMatchLabels(map[string]string{"app": "web"})).
+					WithUpdateStrategy(appsapplyv1.StatefulSetUpdateStrategy().WithType(appsv1.RollingUpdateStatefulSetStrategyType).
+						WithRollingUpdate(appsapplyv1.RollingUpdateStatefulSetStrategy().WithPartition(part))).
+					WithTemplate(coreapplyv1.PodTemplateSpec().WithLabels(map[string]string{"app": "web"}).
+						WithSpec(coreapplyv1.PodSpec().WithContainers(coreapplyv1.Container().WithName("c").WithImage("img:v1")))))
+			got, err := hc.AppsV1().StatefulSets("ns").Apply(bg, ac, metav1.ApplyOptions{FieldManager: "verif"})
+			if err != nil {
+				add(i, "hijack-apply-failed", err.Error(), nil)
+			} else {
+				res.Stats["hijack_applies"]++
+				okApply := got.APIVersion == "apps/v1" && got.Spec.Replicas != nil && *got.Spec.Replicas == rep && got.Spec.ServiceName == "svc" &&
+					got.Spec.PodManagementPolicy == appsv1.ParallelPodManagement && got.Spec.RevisionHistoryLimit != nil && *got.Spec.RevisionHistoryLimit == int32(seed%7) &&
+					got.Spec.UpdateStrategy.RollingUpdate != nil && got.Spec.UpdateStrategy.RollingUpdate.Partition != nil && *got.Spec.UpdateStrategy.RollingUpdate.Partition == part &&
+					len(got.Spec.Template.Spec.Containers) == 1 && got.Spec.Template.Spec.Containers[0].Image == "img:v1" && got.Annotations[helper.DeleteSlotsAnn] == "[1]" &&
+					got.Spec.Selector != nil && got.Spec.Selector.MatchLabels["app"] == "web"
+				if !okApply {
+					add(i, "apply-through-hijack", "a field of the apply configuration did not survive Apply through the hijack client: "+jsonOf(got.Spec), nil)
+				}
+				if st, ok := srv.Get(simapi.Sets, "ns", "applied").(*asv1.StatefulSet); !ok || st.APIVersion != asv1.SchemeGroupVersion.String() {
+					add(i, "apply-through-hijack", "the applied object was not stored as an Advanced StatefulSet", nil)
+				}
+			}
+		}
 		// status through UpdateStatus
 		st := again.DeepCopy()
 		st.Status = *x.Status.DeepCopy()
@@ -529,5 +565,5 @@ func init() {
 		Rule:   "apps/v1 StatefulSets generated by gofuzz with apimachinery's meta fuzzer functions plus custom functions (Quantity, IntOrString, Time, nil vs empty collections, every optional pointer nil/non-nil, defaulted and undefaulted enums) over the whole modelled schema; per object: conversion round trip, defaulting idempotence, list conversion, Create/Get/Update/UpdateStatus through the real hijack client over simapi; plus the slot-set / pause-flag codecs over all subsets of int32 extremes x annotation maps (nil, empty, others) and 2000 random int32 sets; distinct = distinct generated spec",
 		Assume: []string{"the five apps/v1 fields the Advanced type does not model (derived by reflection at run time and recorded in the evidence) are zeroed before the comparison", "metadata of the object written through the hijack client is limited to name/namespace/labels/annotations (the API server owns the rest)"},
 		Cases:  scenarioCases(8000, 120000), Run: runC19,
-		Floors: []string{"round_trips", "defaulting_idempotence_checks", "hijack_create_get", "hijack_resubmits", "hijack_lists", "hijack_patches", "slot_codec_cases", "objects_with_empty_nonnil_collections"}})
+		Floors: []string{"round_trips", "defaulting_idempotence_checks", "hijack_create_get", "hijack_resubmits", "hijack_lists", "hijack_patches", "hijack_applies", "slot_codec_cases", "objects_with_empty_nonnil_collections"}})
 }
